@@ -881,6 +881,7 @@ func (e *Enc) instr(st *State, ins ssa.Instruction) {
 		if mt, ok := ins.X.Type().Underlying().(*types.Map); ok {
 			// map iteration (language spec): every entry that is present when the iteration starts and is not removed during it is
 			// produced exactly once; ghost: the set of keys produced so far (empty now) and the key set at the start
+			e.noteAssumption("map iteration (language specification): a range over a map produces every entry that is present when the iteration starts and is not removed during it exactly once (ghost visited set)")
 			ks := sortOf(mt.Key())
 			name := visitedComp(ins)
 			e.compSort[name] = arrSort(ks, SBool)
